@@ -65,13 +65,11 @@ Proof. field. Qed.
 
 Lemma Box_eq c b p : Box c b p = boxg (boxq c b p).
 Proof.
-  unfold Box, boxg, boxq, pos3, max3, norm, dot.
-  unfold v3_length, v3_length_squared, v3_max, v3_max_component, v3_sub, v3_abs, v3_scale, v3_zero.
-  carrier_R. cbn [v3x v3y v3z]. rewrite !half_mul. reflexivity.
+  gen_coords. rewrite ?half_mul. first [reflexivity | ring].
 Qed.
 
 Theorem rounded_box_eq c b r p : RoundedBox c b r p = Box c b p - r.
-Proof. reflexivity. Qed.
+Proof. first [reflexivity | gen_coords; ring]. Qed.
 
 Lemma max3_lt q k : max3 q < k <-> v3x q < k /\ v3y q < k /\ v3z q < k.
 Proof. unfold max3. rewrite !Rmax_lt_iff. tauto. Qed.
@@ -377,8 +375,7 @@ Definition boxg2 (dx dy : R) : R :=
 Theorem rcyl_as_rounded_rect pos rad th bh p :
   RoundedCylinder pos rad th bh p = boxg2 (rcyl_dx pos rad th p) (rcyl_dy pos bh p) - th.
 Proof.
-  unfold RoundedCylinder, boxg2, rcyl_dx, rcyl_dy, rho.
-  unfold v2_length, v2_new, v3_xz, v3_sub. carrier_R. cbn [v2x v2y v3x v3y v3z]. reflexivity.
+  gen_coords. first [reflexivity | ring].
 Qed.
 
 Lemma boxg2_pad dx dy m : m <= dx -> m <= dy -> m <= 0 -> boxg (mkV3 dx dy m) = boxg2 dx dy.
